@@ -28,11 +28,13 @@ func c06(c *Ctx) {
 		"(digest) every hash->size table in product code (functions from a hash enum/name to a size) gives 20/28/32/48/64 for SHA-1/224/256/384/512, folded on every constant; " +
 		"(injective) every enum->string table function in the hybrid packages is injective on the values it accepts (two parameter values never collapse to one wire/subtle name); " +
 		"(ctxinfo) the contextInfo parameter of every Encrypt/Decrypt reaches the key schedule (labeled extract \"info_hash\" for HPKE, the HKDF info argument for ECIES) through every intermediate function. " +
+		"(fixedwidth) every copy of big.Int.Bytes() (minimal big-endian) into a slot of a fixed-width buffer is right-aligned: the copy's start plus the length of the bytes does not depend on that length, and in each buffer some copy ends at the buffer's end (ECIES point encodings). " +
 		"Fresh encapsulation: C20; no in-place writes to caller ciphertext: C19. Not decided: key-schedule bytes, DH/KEM arithmetic, point encoding values."
 	ac := newAcceptCtx(c)
 	runAccept(c, ac, acceptSpec{Prop: "C06", Iface: [2]string{"tink", "HybridDecrypt"}, Method: "Decrypt", MinTypes: 5, PkgPrefix: "hybrid"})
 	r.Min("C06.auth", 5)
 	c06IDs(c)
+	c06FixedWidth(c)
 	digestSizeTables(c, "C06")
 	injectiveStringTables(c, "C06", []string{"hybrid", "hybrid/ecies", "hybrid/hpke", "hybrid/internal/hpke", "hybrid/subtle", "hybrid/internal/ecies"})
 	c06CtxInfo(c)
@@ -586,4 +588,89 @@ func c06Suite(c *Ctx) {
 			fmt.Sprintf("id %s, parameter %s (%s)", idv, alg, pb.what))
 	}
 	r.Counts["suite_probes_folded"] = n
+}
+
+// c06FixedWidth: (*big.Int).Bytes() is the minimal big-endian form; copied into
+// a fixed-width slot it must be right-aligned, i.e. start at `end - len(bytes)`.
+// For every copy(dst[lo:], src) in the hybrid packages whose src derives from
+// big.Int.Bytes(): lo + len(src), as a linear term, must not mention len(src);
+// and per buffer some such copy ends exactly at len(buffer).
+func c06FixedWidth(c *Ctx) {
+	p, r := c.P, c.R
+	var fromBig func(v ssa.Value, depth int) bool
+	fromBig = func(v ssa.Value, depth int) bool {
+		if depth > 4 {
+			return false
+		}
+		v = guard.Strip(v)
+		if call, _ := guard.CallOf(v); call != nil {
+			n := guard.CalleeName(&call.Call)
+			if n == "(*math/big.Int).Bytes" {
+				return true
+			}
+			if n == "bytes.Replace" || n == "bytes.TrimLeft" || n == "bytes.TrimPrefix" {
+				return fromBig(call.Call.Args[0], depth+1)
+			}
+			return false
+		}
+		if phi, ok := v.(*ssa.Phi); ok {
+			for _, e := range phi.Edges {
+				if fromBig(e, depth+1) {
+					return true
+				}
+			}
+		}
+		return false
+	}
+	n := 0
+	for _, f := range p.SortedFuncs(core.Product) {
+		if !strings.HasPrefix(core.Rel(core.PkgOf(f)), "hybrid") {
+			continue
+		}
+		cx := bounds.NewCtx(f)
+		endsAtBufEnd := map[ssa.Value]bool{}
+		var bufs []ssa.Value
+		bufPos := map[ssa.Value]ssa.Instruction{}
+		allInstrs(f, func(ins ssa.Instruction) {
+			call, ok := ins.(*ssa.Call)
+			if !ok {
+				return
+			}
+			if guard.CalleeName(&call.Call) == "(*math/big.Int).FillBytes" {
+				// fixed width and right-aligned by definition
+				n++
+				r.Ok("C06.fixedwidth", fmt.Sprintf("C06.fixedwidth/%s/FillBytes", core.FuncID(f)), p.Pos(ins.Pos()), "big.Int.FillBytes writes the value right-aligned into the whole slot")
+				return
+			}
+			b, isB := call.Call.Value.(*ssa.Builtin)
+			if !isB || b.Name() != "copy" || !fromBig(call.Call.Args[1], 0) {
+				return
+			}
+			n++
+			src := call.Call.Args[1]
+			base, lo := absSliceStart(cx, call.Call.Args[0])
+			end := lo.Add(cx.LenOf(src), 1)
+			aligned := true
+			for a := range cx.LenOf(src).Coef {
+				if end.Coef[a] != 0 {
+					aligned = false
+				}
+			}
+			if _, seen := bufPos[base]; !seen {
+				bufs = append(bufs, base)
+				bufPos[base] = ins
+			}
+			if d, isK := end.Add(cx.LenOf(base), -1).Const(); isK && d == 0 {
+				endsAtBufEnd[base] = true
+			}
+			r.Check(aligned, "C06.fixedwidth", fmt.Sprintf("C06.fixedwidth/%s/copy ending at %s", core.FuncID(f), end.String()), p.Pos(ins.Pos()),
+				"the minimal big-endian bytes of a big.Int are copied into a fixed-width slot without right alignment (start + len(bytes) depends on len(bytes)): a coordinate with a leading zero byte is shifted", "start = slot end - len(bytes)")
+		})
+		for _, b := range bufs {
+			r.Check(endsAtBufEnd[b], "C06.fixedwidth", fmt.Sprintf("C06.fixedwidth/%s/buffer %s filled to its end", core.FuncID(f), cx.LenOf(b).String()), p.Pos(bufPos[b].Pos()),
+				"no big-integer field ends at the end of the fixed-width buffer (the last coordinate is not right-aligned to the buffer)", "a copy ends at len(buffer)")
+		}
+	}
+	r.Counts["bigint_fixed_width_copies"] = n
+	r.Min("C06.fixedwidth", 3)
 }
